@@ -1271,6 +1271,36 @@ def shape_grid():
             for st in students:
                 out.append({'grader': 'Matrix', 'cmp': cmp, 'params': params, 'tolerance': '0.01%', 'student': st,
                             'expect': {'kind': 'wrongshape'}, 'exact': True, 'policy': pol, 'samples': 1})
+    # zero-valued (and, under an absolute tolerance, within-tolerance-of-zero) submissions of every wrong shape: a comparer's
+    # own "must be nonzero" / "is zero" logic must never pre-empt the shape report
+    zero_setups = [
+        ({'name': 'span'}, ['[1, 1, 0]', '[0, 1, 2]'], 'vec3'), ({'name': 'phase'}, ['[1, i, 0]'], 'vec3'),
+        ({'name': 'eigen'}, ['[[2, 1], [1, 2]]', '3'], 'vec2'), ({'name': 'equality'}, ['[1, 2, 3]'], 'vec3'),
+        ({'name': 'equality'}, ['[[1, 2], [3, 4]]'], 'mat22'), ({'name': 'equality'}, ['7'], 'scalar'),
+        ({'name': 'equality', 'cfg': {'transform': 'norm'}}, ['[1, 2, 3]'], 'vec3'),
+        ({'name': 'entry', 'cfg': {'entry_partial_credit': 'proportional'}}, ['[1, 2, 3]'], 'vec3'),
+        ({'name': 'entry', 'cfg': {'entry_partial_credit': 0.5}}, ['[[1, 2], [3, 4]]'], 'mat22'),
+    ]
+    zeros = {'vec3': ['0', '[0, 0]', '[0, 0, 0, 0]', '[[0, 0, 0]]', '[1, 2]-[1, 2]', '0*[1, 1]', '[[0, 0], [0, 0]]'],
+             'vec2': ['0', '[0, 0, 0]', '[[0, 0], [0, 0]]', '[0]', '[1, 2, 3]-[1, 2, 3]'],
+             'mat22': ['0', '[0, 0]', '[[0, 0, 0], [0, 0, 0]]', '[[0, 0]]', '0*[1, 1]'],
+             'scalar': ['[0]', '[0, 0]', '[[0]]']}
+    tiny = {'vec3': ['1e-09', '[1e-09, 0]', '[[0, 1e-09, 0]]'], 'vec2': ['1e-09', '[0, 1e-09, 0]'],
+            'mat22': ['1e-09', '[1e-09, 0]'], 'scalar': ['[1e-09]']}
+    k = 0
+    for cmp, params, shp in zero_setups:
+        pols = POLICIES if cmp['name'] in ('span', 'phase', 'eigen') else [POLICIES[i] for i in (0, 1, 3, 4)]
+        for pol in pols:
+            for st in zeros[shp] + tiny[shp]:
+                k += 1
+                out.append({'grader': 'Matrix', 'cmp': cmp, 'params': params,
+                            'tolerance': 0.01 if (st in tiny[shp] or k % 3 == 0) else '0.01%', 'student': st,
+                            'expect': {'kind': 'wrongshape'}, 'exact': True, 'policy': pol, 'samples': 1})
+    for pol in POLICIES:
+        for st in ['[0, 0, 0]', '0', '[[0, 0]]', '[x, y, 1]-[x, y, 1]']:
+            out.append({'grader': 'Matrix', 'cmp': {'name': 'linear', 'cfg': {}}, 'params': ['[x, y]'], 'tolerance': '0.01%',
+                        'student': st, 'expect': {'kind': 'wrongshape'}, 'exact': False, 'policy': pol, 'samples': 3,
+                        'variables': ['x', 'y']})
     for pol in POLICIES:
         for st in ['[x, y, 1]', 'x', '[[x, y]]']:
             out.append({'grader': 'Matrix', 'cmp': {'name': 'linear', 'cfg': {}}, 'params': ['[x, y]'], 'tolerance': '0.01%',
